@@ -507,7 +507,7 @@ func main() {
 	run := vx.Start("C15")
 	dqCap, dqLen, heapMax, heapInit, pqKeys := 20, 5, 5, 4, 4
 	if !run.Quick() {
-		dqCap, dqLen, heapMax, heapInit, pqKeys = 34, 6, 6, 5, 5
+		dqCap, dqLen, heapMax, heapInit, pqKeys = 66, 7, 7, 5, 6
 	}
 	hs := heapSys{maxSize: heapMax, inits: allLists(3, 6)}
 	var pInits [][]xheap.KP[int, int]
